@@ -8,6 +8,6 @@ rsync -a --exclude .git /repo/ $SCR/
 if ! (cd $SCR && patch -p1 -s --no-backup-if-mismatch < /verif/seeded/$ID/patch.diff); then echo "$ID PATCH-FAILED"; rm -rf $SCR; exit 2; fi
 for P in $PROPS; do
   OUT=$(cd /verif && ./bin/gowp --prop $P --repo $SCR --no-evidence --workdir $SCR.work 2>&1); RC=$?
-  echo "$ID $P rc=$RC $(echo "$OUT" | grep '^VIOLATION' | head -3 | sed 's/.*obligation=//' | tr '\n' ';')"
+  echo "$ID $P rc=$RC $(echo "$OUT" | grep '^VIOLATION' | head -12 | sed 's/.*obligation=//' | tr '\n' ';')"
 done
 rm -rf $SCR $SCR.work
